@@ -187,6 +187,8 @@ pub fn generate<W: Write>(prop: &str, tier: &str, seed: u64, out: &mut W) {
     match prop {
         "C16" => gen_c16(&mut r, thorough, out),
         "C01" => gen_c01(&mut r, thorough, out),
+        "C17" => gen_lo(true, &mut r, thorough, out),
+        "C18" => gen_lo(false, &mut r, thorough, out),
         "C03" => gen_c03(&mut r, thorough, out),
         "C12" => gen_c12(&mut r, thorough, out),
         "C02" => gen_c02(&mut r, thorough, out),
@@ -1026,5 +1028,85 @@ fn gen_c03<W: Write>(r: &mut Rng, thorough: bool, out: &mut W) {
             text.join("|")
         )
         .unwrap();
+    }
+}
+
+
+// ------------------------------------------------------------------ C17 / C18: helper inputs
+
+const COLSYMS: [u8; 8] = [b'A', b'C', b'G', b'T', b'-', b'N', b'A', b'G'];
+
+fn gen_lo<W: Write>(snps: bool, r: &mut Rng, thorough: bool, out: &mut W) {
+    let rounds = if thorough { 30000 } else { 1500 };
+    for _ in 0..rounds {
+        if snps {
+            let n = 1 + r.below(12);
+            let col: Vec<u8> = (0..n).map(|_| *r.pick(&COLSYMS)).collect();
+            writeln!(out, "lo_cmd col={}", s(&col)).unwrap();
+            writeln!(out, "lo_comp col={}", s(&col)).unwrap();
+            // variant groups: a few sequences of (nearly) equal length with marked positions
+            let len = 8 + r.below(40);
+            let base = rand_acgt(r, len);
+            let nv = 2 + r.below(4);
+            let mut vars: Vec<String> = Vec::new();
+            for _ in 0..nv {
+                let mut v = base.clone();
+                for _ in 0..r.below(4) {
+                    let p = r.below(len);
+                    v[p] = *r.pick(&ACGT);
+                }
+                if r.chance(1, 6) {
+                    v.truncate(len - r.below(4));
+                }
+                let marks: Vec<String> = (0..r.below(4)).map(|_| r.below(len).to_string()).collect();
+                vars.push(format!("{}:{}", s(&v), marks.join("+")));
+            }
+            writeln!(out, "lo_snps vars={}", vars.join(",")).unwrap();
+            // output writer
+            let glen = if r.chance(1, 4) { 0 } else { 5 + r.below(40) };
+            let mut genome = rand_acgt(r, glen);
+            for b in genome.iter_mut() {
+                if r.chance(1, 15) {
+                    *b = *r.pick(&[b'N', b'R', b'n', b'a']);
+                }
+            }
+            let ns = 1 + r.below(6);
+            let nvar = r.below(6);
+            let mut used: Vec<usize> = Vec::new();
+            let mut vs: Vec<String> = Vec::new();
+            for _ in 0..nvar {
+                let p = r.below(if glen > 0 { glen } else { 30 });
+                if used.contains(&p) {
+                    continue;
+                }
+                used.push(p);
+                let col: Vec<u8> = (0..ns).map(|_| *r.pick(&COLSYMS)).collect();
+                vs.push(format!("{}:{}", p, s(&col)));
+            }
+            writeln!(
+                out,
+                "lo_out genome={} n={ns} vars={}",
+                s(&genome),
+                if vs.is_empty() { "~".to_string() } else { vs.join(",") }
+            )
+            .unwrap();
+        } else {
+            // indel groups: shared first k-mer, different inserts, shared tail
+            let k = 3 + r.below(12);
+            let first = rand_acgt(r, k);
+            let tl = r.below(2 * k + 2);
+            let tail = rand_acgt(r, tl);
+            let nseq = 2 + r.below(2);
+            let mut seqs: Vec<String> = Vec::new();
+            for _ in 0..nseq {
+                let il = r.below(8);
+                let ins = rand_acgt(r, il);
+                let mut sq = first.clone();
+                sq.extend_from_slice(&ins);
+                sq.extend_from_slice(&tail);
+                seqs.push(s(&sq));
+            }
+            writeln!(out, "lo_mid k={k} seqs={}", seqs.join(",")).unwrap();
+        }
     }
 }
